@@ -1,7 +1,24 @@
 """C16 on the whole-program machine: collect()/first() transcribed in Lib.v (first_gen, SCollect), whole-trace
-correspondence on the `flows` family, and an oracle on the implementation (results, order, times, aborts)."""
-from harness import machine_prop
-from harness.props._machine_common import TRUSTED, ASSUMPTIONS, RULE  # noqa
+correspondence on the `flows` family, and an oracle on the implementation (results, order, times, aborts).
+
+Plus the mechanism-level model of the two calls (coq/theories/FlowProto.v, theorems for all inputs in
+FlowProtoProps.v, stated in props/C16.v): harness/flowcorr.py runs the real first()/collect() and the model on
+the same random inputs (family `flowproto`) and judges the implementation with an oracle of its own."""
+from harness import machine_prop, flowcorr
+from harness.props import _machine_common as _mc
+
+TRUSTED = _mc.TRUSTED + [
+    'theories/FlowProto.v: hand model of first()/collect() at the level of kernel activations (agenda, monitors, '
+    'queue, consumer, internal scope); tied to /repo by the event-by-event correspondence of harness/flowcorr.py',
+    'harness/flowcorr.py: observer coroutines (start / last statement / GeneratorExit with time.now) and the oracle',
+]
+ASSUMPTIONS = _mc.ASSUMPTIONS + [
+    'flowproto: activities are plain coroutines `await (time + delay)` then return / raise, delays >= 0, the call is '
+    'made by a root activity that is not cancelled meanwhile (cancelled callers: family cancelled-callers on the machine)',
+]
+RULE = _mc.RULE + ('; flowproto: a case = (first | collect, start time, 0-7 activities with small delays (many ties) '
+                   'and outcome value | failure, count None | 0..n+1, think time per received result, mostly 0); '
+                   'non-trivial = at least two activities; distinct = distinct case')
 
 ID = 'C16'
 COQ_FILES = ['props/C16.v']
@@ -18,7 +35,7 @@ def only_c16_and_d11(ctx_fail):
     pass
 
 
-def cancelled_callers(rng, n):
+def cancelled_callers(rng, n, fail_p=0.0):
     """the caller of collect()/first() is cancelled, interrupted or closed in the very time step in which it makes the
     call or receives a result: the activities that have not even started must be discarded, the others aborted"""
     out = []
@@ -29,13 +46,19 @@ def cancelled_callers(rng, n):
             if rng.random() < 0.8:
                 b.append(['await', ['delay', rng.choice([0, 1, 1, 2, 3])]])
             b.append(['log', 10 + i])
+            if fail_p and rng.random() < fail_p:
+                b.append(['raise', rng.choice([0, 1, 2])])
             acts.append([201 + i, b])
         if rng.random() < 0.5:
             call = ['collect', 501, acts]
         else:
-            call = ['first', 501, rng.choice([None, 1, 2]), 0, acts, [['log', 30]] + ([['await', ['instant']]] if rng.random() < 0.3 else [])]
+            call = ['first', 501, rng.choice([None, 1, 2]), 0, acts, [['log', 30]] + ([['await', ['instant']]] if rng.random() < 0.3 and not fail_p else [])]
         d = rng.choice([1, 1, 2])
-        victim = [['await', ['delay', d]], call, ['log', 40]]
+        if fail_p:
+            # the caller treats a failure of the activities as an ordinary error and carries on - which it must not get
+            # to do when it was cancelled in that very time step
+            call = ['try', [call], [[['concurrent'], [['log', 44]]]], []]
+        victim = [['await', ['delay', d]], call, ['log', 40], ['await', ['delay', 1]], ['log', 45]]
         how = rng.random()
         if how < 0.5:
             body = [['do', 1, 1, ['now'], False, victim]]
@@ -53,21 +76,33 @@ def cancelled_callers(rng, n):
 def run(ctx):
     # C03's monitor is used here only to recognise known finding D11 (CancelScope of first()'s scope escaping);
     # other C03 failures belong to C03's own check
-    scs, impl = machine_prop.run(ctx, FAMILIES, ['C16', 'C04'], extra_scenarios=cancelled_callers(ctx.rng, ctx.n(80, 1500)))
+    scs, impl = machine_prop.run(ctx, FAMILIES, ['C16', 'C04'], extra_scenarios=cancelled_callers(ctx.rng, ctx.n(80, 1500)) +
+                                 cancelled_callers(ctx.rng, ctx.n(80, 1500), fail_p=0.5))
     from harness import monitors
     for sc, (tr, info) in zip(scs, impl):
         for expl, finding in monitors.mon_C03(sc, tr, info['probes'], info):
             if finding == 'D11':
                 ctx.fail(sc, '[C03/C16] ' + expl, finding='D11', family='flows')
+    flowcorr.run(ctx)
 
 
 def search(ctx):
     machine_prop.run(ctx, [('flows', 2500, 12000, {})], ['C16'])
+    flowcorr.run(ctx, n=ctx.n(4000, 20000))
+
+
+def _is_flow_case(case):
+    return isinstance(case, dict) and 'acts' in case and 'roots' not in case
 
 
 def replay(ctx, rp):
-    return machine_prop.replay(ctx, rp, ['C16'])
+    case = rp.get('case') or (rp.get('mismatches') or [{}])[0].get('case')
+    if rp.get('family') == flowcorr.FAMILY or _is_flow_case(case):
+        return flowcorr.replay(ctx, rp)
+    return machine_prop.replay(ctx, rp, ['C16', 'C04'])
 
 
 def shrink(ctx, failure):
-    return machine_prop.shrink(ctx, failure, ['C16'])
+    if failure.family == flowcorr.FAMILY or _is_flow_case(failure.case):
+        return flowcorr.shrink(ctx, failure)
+    return machine_prop.shrink(ctx, failure, ['C16', 'C04'])
